@@ -920,7 +920,188 @@ def text_parts(node):
             lit(n.value)
         elif isinstance(n, ast.Call) and isinstance(n.func, ast.Name) and n.func.id == 'str' and len(n.args) == 1 and not n.keywords:
             rec(n.args[0])
+        elif isinstance(n, ast.Call) and isinstance(n.func, ast.Attribute) and n.func.attr == 'format' \
+                and isinstance(n.func.value, ast.Constant) and isinstance(n.func.value.value, str) \
+                and not any(isinstance(a, ast.Starred) for a in n.args) and all(k.arg for k in n.keywords) and _format_fields(n) is not None:
+            for text, arg in _format_fields(n):
+                lit(text)
+                if arg is not None:
+                    rec(arg)
+        elif isinstance(n, ast.BinOp) and isinstance(n.op, ast.Mod) and isinstance(n.left, ast.Constant) and isinstance(n.left.value, str) \
+                and n.left.value.count('%') == n.left.value.count('%s') and '%' in n.left.value:
+            args = list(n.right.elts) if isinstance(n.right, ast.Tuple) else [n.right]
+            pieces = n.left.value.split('%s')
+            if len(args) == len(pieces) - 1:
+                for k, t in enumerate(pieces):
+                    lit(t)
+                    if k < len(args):
+                        rec(args[k])
+            else:
+                out.append(('expr', src(n)))
         else:
             out.append(('expr', src(n)))
     rec(node)
     return out
+
+
+def _format_fields(call):
+    """[(literal text, argument node | None)] of `'...{}...{name}'.format(args)`: plain fields only (no conversion, no format
+    spec, no attribute / index look-ups); None when the template uses anything else."""
+    import string
+    out = []
+    auto = 0
+    kw = {k.arg: k.value for k in call.keywords}
+    try:
+        parsed = list(string.Formatter().parse(call.func.value.value))
+    except ValueError:
+        return None
+    for text, field, spec, conv in parsed:
+        if field is None:
+            out.append((text, None))
+            continue
+        if spec or conv:
+            return None
+        if field == '':
+            if auto is None or auto >= len(call.args):
+                return None
+            arg = call.args[auto]
+            auto += 1
+        elif field.isdigit():
+            if auto:
+                return None
+            auto = None
+            if int(field) >= len(call.args):
+                return None
+            arg = call.args[int(field)]
+        elif field in kw:
+            arg = kw[field]
+        else:
+            return None
+        out.append((text, arg))
+    return out
+
+
+def _through_glue(ctx, v, fi, depth):
+    """A value that is a call of a helper the pinned tree does not know (glue): the values the helper returns, arguments
+    substituted; any other value as it is."""
+    if depth > 3 or not isinstance(v, ast.Call):
+        return [v]
+    try:
+        t, bound = _static_callee(ctx, v, fi)
+    except AnalysisError:
+        return [v]
+    if t is None or t.name == '__init__' or t.module.generated or ctx.prog.is_anchor(t):
+        return [v]
+    try:
+        b_ = bind_args(v, t, bound and t.kind in ('method', 'classmethod'))
+    except AnalysisError:
+        return [v]
+    out = []
+    for _, w, _sp in symex.returns(t):
+        w = G.substitute(w, dict(b_), recursive=False)
+        out.extend(_through_glue(ctx, w, fi, depth + 1))
+    return out or [v]
+
+
+# ----------------------------------------------------------------------- what a callable value computes
+def callable_results(ctx, node, fi: FuncInfo, env=None, depth=0):
+    """What a callable VALUE returns when called with one more argument: [(parameter name, returned expression)] for every
+    returning path.  Followed: a nested function / a lambda (closure variables replaced by the values `env` gives them in the
+    enclosing function), a function or bound method of the repository, `functools.partial(f, a, ...)` (leading parameters bound)
+    and a factory call whose result is one of these (the factory's parameters replaced by the arguments of the call).
+    None when the value is none of these."""
+    env = dict(env or {})
+    if depth > 4:
+        return None
+    if depth == 0:
+        res = callable_results(ctx, node, fi, env, 1)
+        if res is None:
+            return None
+        out = []
+        for q, v in res:
+            out.extend((q, w) for w in _through_glue(ctx, v, fi, 0))
+        return out
+
+    def finish(target, bound_map, skip):
+        free = [p for p in target.params if p not in bound_map and p not in skip]
+        if len(free) != 1:
+            return None
+        q = free[0]
+        own = {n.id for n in ast.walk(target.node) if isinstance(n, ast.Name) and isinstance(n.ctx, ast.Store)} | set(target.params)
+        closure = {k: v for k, v in env.items() if k not in own}
+        out = []
+        if isinstance(target.node, ast.Lambda):
+            vals = [target.node.body]
+        else:
+            vals = [v for _, v, _ in symex.returns(target) if v is not None]
+        for v in vals:
+            v = G.substitute(v, dict(bound_map), recursive=False)
+            v = G.substitute(v, closure, recursive=False) if closure else v
+            out.append((q, v))
+        return out
+
+    if isinstance(node, ast.Lambda):
+        a = node.args
+        if a.vararg or a.kwarg or a.kwonlyargs or len(a.args) != 1:
+            return None
+        v = G.substitute(node.body, {k: w for k, w in env.items() if k != a.args[0].arg}, recursive=False) if env else node.body
+        return [(a.args[0].arg, v)]
+    if isinstance(node, ast.Name):
+        target = ctx.prog.nested_functions(fi).get(node.id)
+        if target is not None:
+            return finish(target, {}, ())
+        if node.id in env and not isinstance(env[node.id], ast.Name):
+            return callable_results(ctx, env[node.id], fi, {k: v for k, v in env.items() if k != node.id}, depth + 1)
+    if isinstance(node, (ast.Name, ast.Attribute)):
+        fake = ast.Call(func=node, args=[], keywords=[])
+        try:
+            t, bound = _static_callee(ctx, fake, fi)
+        except AnalysisError:
+            t, bound = None, False
+        if t is not None and t.name != '__init__' and not t.module.generated:
+            skip = t.params[:1] if (bound and t.kind in ('method', 'classmethod')) else ()
+            return finish(t, {}, skip)
+        return None
+    if isinstance(node, ast.Call):
+        r = ctx.prog.resolve_expr(fi.module, node.func, fi.cls) if isinstance(node.func, (ast.Name, ast.Attribute)) else None
+        if r and r[0] == 'external' and r[1] in ('functools.partial',) and node.args:
+            inner = node.args[0]
+            fake = ast.Call(func=inner, args=[], keywords=[])
+            t = None
+            if isinstance(inner, ast.Name) and inner.id in ctx.prog.nested_functions(fi):
+                t, skip = ctx.prog.nested_functions(fi)[inner.id], ()
+            elif isinstance(inner, (ast.Name, ast.Attribute)):
+                try:
+                    t, bound = _static_callee(ctx, fake, fi)
+                except AnalysisError:
+                    t, bound = None, False
+                skip = t.params[:1] if (t is not None and bound and t.kind in ('method', 'classmethod')) else ()
+            if t is None or t.name == '__init__':
+                return None
+            params = [p for p in t.params if p not in skip]
+            if len(node.args) - 1 > len(params) or any(k.arg is None or k.arg not in params for k in node.keywords):
+                return None
+            bm = dict(zip(params, node.args[1:]))
+            bm.update({k.arg: k.value for k in node.keywords})
+            return finish(t, bm, skip)
+        # a factory: the callable it returns, with the factory's parameters replaced by the arguments
+        try:
+            t, bound = _static_callee(ctx, node, fi)
+        except AnalysisError:
+            t, bound = None, False
+        if t is None or t.name == '__init__' or t.module.generated:
+            return None
+        try:
+            b_ = bind_args(node, t, bound and t.kind in ('method', 'classmethod'))
+        except AnalysisError:
+            return None
+        out = []
+        for _, v, sp in symex.returns(t):
+            inner_env = {k: w for k, w in sp.env.items() if isinstance(w, ast.AST)} if hasattr(sp, 'env') else {}
+            res = callable_results(ctx, v, t, inner_env, depth + 1)
+            if res is None:
+                return None
+            for q, val in res:
+                out.append((q, G.substitute(val, {k: w for k, w in b_.items() if k != q}, recursive=False)))
+        return out
+    return None
